@@ -25,7 +25,9 @@ claim("C17",
       "exhaustive differential run (>500k cases quick) of the model inside Coq against the real function with scripted draws; "
       "an independent monitor of the property statement supplies the failing input. 'The episode's history and nothing else' on "
       "the coordinator side: defender-on sessions with several episodes on the real coordinator (followed by the coordinator "
-      "model), with a monitor that the history handed to the defender is exactly the actions answered in the current episode. "
+      "model), with a monitor that the history handed to the defender is exactly the actions answered in the current episode; one "
+      "directed session is an episode of more than 100 actions (no step limit, trajectories saved, draw scripted to 0) in which "
+      "an action of the first step is repeated as action 101 - the repeat counts over the whole episode. "
       "The integration clause in the coordinator model (Proofs/CoordDetect.v), for every reachable state, any number of agents and "
       "any interleaving: C17_game_fail_only_by_detection (in one label the status of a non-Defender becomes Fail only in its own "
       "game handler, by a counted step in which the goal was not reached and the C17_iff condition holds for the new action and "
@@ -52,7 +54,9 @@ claim("C14",
       "(>7000 cases quick), evaluated by vm_compute inside Coq; a direct round-trip/equality monitor supplies failing inputs; "
       "a wire probe sends actions with awkward legal texts (the letters of the end-of-message marker, quotes, backslashes, "
       "braces, non-ASCII) through the real AgentServer read loop and dispatcher and compares the actions the game recorded "
-      "with the ones sent (value and hash); bogus type names must be refused there too.",
+      "with the ones sent (value and hash); bogus type names must be refused there too; on two connections, messages of exactly "
+      "one read buffer (a legal action padded with blanks to ProtocolConfig.BUFFER_SIZE bytes is played, text of that length that is "
+      "not JSON is refused) must leave the next message of either connection untouched.",
       "Trusted: Coq kernel + VM; translator harness/translate/codec.py; Python's json and ipaddress libraries enter as "
       "premises / as the IPv4-only validity function Model/Ipv4Text.v (IPv6 texts and ill-typed field values are outside "
       "the model); hand-written model tied by differential execution.",
@@ -93,14 +97,18 @@ claim("C02",
       "leaves the world as it is, the view stored for and reported to the agent is the view it had, nobody else's record changes). Tie: correspondence of Model/World.v with the six action implementations on "
       "walks over shipped and generated scenarios (firewall on/off, perturbed unreachable views, parameters over non-existing "
       "hosts/services/data); the ops whose precondition fails are the ones counted for this property; an independent Python "
-      "reference of the statement supplies failing inputs.", W_NOTE, W_TECH, "DESIGN.md section 7, C02")
+      "reference of the statement supplies failing inputs. The walks span several episodes (a reset every 25 steps), use ONE "
+      "start-position table per role for all its agents and episodes (as the coordinator does; it is compared with what was "
+      "configured at every join and reset) and start positions that already hold data on the usual exfiltration target.", W_NOTE, W_TECH, "DESIGN.md section 7, C02")
 claim("C03",
       "Rocq theorems giving the exact effect of each action in closed form when its precondition holds (C03_scan, "
       "C03_find_services + C03_services_all, C03_find_data, C03_exploit, C03_exfiltrate + C03_shared, C03_block_connectivity, "
       "C03_block_recorded) and completeness of the loader against the scenario definition (C03_load_ifaces, C03_load_services, "
       "C03_load_data: EVERY datapoint of every service; *_exact: nothing else; C03_scan_complete). Tie: correspondence of "
       "Model/Load.v with _process_cyst_config on an independent reading of the scenario objects, of init_view with "
-      "_create_state_from_view, and of Model/World.v on the ops whose precondition holds; Python reference monitor.",
+      "_create_state_from_view, and of Model/World.v on the ops whose precondition holds; Python reference monitor. The walks span "
+      "several episodes (a reset every 25 steps: the effect of an action in episode 3 is still the one the scenario defines, whatever "
+      "was blocked or exfiltrated in episodes 1 and 2) with one start-position table per role.",
       W_NOTE, W_TECH, "DESIGN.md section 7, C03")
 claim("C08",
       "Rocq theorems: no action changes the static tables or pristine copies (C08_static); after ANY sequence of actions by any "
@@ -133,7 +141,10 @@ claim("C12",
       "visible blocks), C12_world_changes (another agent can change those only by a successful exfiltration or BlockIP), C12_coordinator_no_channel "
       "(the coordinator adds no other channel: the handler of one address leaves every other agent's record untouched). Tie: "
       "correspondence on interleavings of 2-3 agents sharing hosts (common exfiltration target, overlapping control) plus deep "
-      "snapshots of all agents' stored views (aliasing is outside the value-semantic model: partial).", W_NOTE, W_TECH, "DESIGN.md section 7, C12")
+      "snapshots of all agents' stored views (aliasing is outside the value-semantic model: partial), over several episodes; a "
+      "coordinator-level isolation probe (two Attackers with different hosts, a Defender whose goal uses the documented "
+      "'all_attackers' wildcard, a Benign agent; scenario1 and three_nets): whoever sends a message, the view the coordinator holds "
+      "for every other agent is compared field by field before and after.", W_NOTE, W_TECH, "DESIGN.md section 7, C12")
 
 C_NOTE = ("Trusted: Coq kernel + VM; the hand-written LTS Model/Coord.v is tied to coordinator.py by the trace-following correspondence "
           "(every atomic asyncio task step of real sessions is a label the model must enable and after which the whole observable state "
@@ -190,7 +201,10 @@ claim("C05",
       "configured rewards multiplied by any k is the original one with every stored, sent and recorded reward multiplied by k and "
       "nothing else changed; it is also why following fractional rewards at a scale at which they are whole numbers is exact). The "
       "monitor checks the same over every task step of real sessions, and every session is played a second time on the real "
-      "coordinator with the configured rewards divided by 16 (all answers must be the original ones with the rewards divided by 16).",
+      "coordinator with the configured rewards divided by 16 (all answers must be the original ones with the rewards divided by 16). "
+      "Directed sessions cover all three roles with three required players (a Defender that joins an episode in which an attacker has "
+      "already succeeded - and has since asked for a reset - is still paid Fail) and a Defender that uses up a step limit of its own "
+      "while the attacker is playing (paid by the attackers' outcome alone).",
       C_NOTE, C_TECH, "DESIGN.md section 7, C05")
 claim("C06",
       "Rocq theorems: C06_end (handlers waiting for the end are released only by the reward task, which does nothing unless every "
@@ -229,7 +243,9 @@ claim("C16",
       "response), C16_refused, C16_frame, C16_handout, C16_files, C16_files_exact / C16_files_frame (the reset task appends exactly one record per agent in the game, nothing else ever writes); for every reachable state: C16_wf (one more state than actions, as many rewards "
       "as actions), C16_one_label (one label leaves a trajectory alone, appends exactly the answered triple, or restarts it). Monitor: last_trajectory of every RESET_DONE compared with the log "
       "of OK responses the harness received; trajectory files compared with the model after every step (sessions run in a scratch "
-      "working directory without a trajectories folder). One configuration in five has fractional rewards (binary fractions down to "
+      "working directory without a trajectories folder). A long-session probe plays 130 (thorough: 400) short episodes of three "
+      "agents (one of each role) in ONE coordinator and requires after every collective reset exactly one more record - the "
+      "episode just played - in every agent's file. One configuration in five has fractional rewards (binary fractions down to "
       "1/16, finer than two decimals), followed by the Z-valued model at scale 16.", C_NOTE, C_TECH, "DESIGN.md section 7, C16")
 claim("C18",
       "Rocq theorems for all label sequences: C18_bound (served connections <= required players in every reachable state), C18_count "
@@ -260,7 +276,8 @@ claim("C19",
       "behaviour-level effect in every combination; a goal probe plays one exfiltration script under five goals in two "
       "delivery orders and compares the end flag after every answer with the reference subset check of the configured goal; a "
       "required-players probe (absent / 1 / 2 / 3) checks that no episode - the first or a later one after a departure - starts "
-      "before the configured number of players is in the game; a wildcard-order probe hands every permutation of {all_local, "
+      "before the configured number of players is in the game; the switch probe goes on for four episodes with a block in each "
+      "(every episode starts with the configured firewall, however many blocks came before); a wildcard-order probe hands every permutation of {all_local, "
       "the outside host, random, a local host} to the view builder (the reader keeps the items in a set, so their order is Python's) "
       "and requires all local addresses plus every listed address each time. "
       "The section readers (glue) are decided by correspondence: generated "
@@ -280,7 +297,9 @@ claim("C13",
       "mapping). valid_mapping is a boolean evaluated INSIDE Coq on every re-labelling the implementation performs; the model re-keys "
       "its own world with the implementation's published step and must arrive at the implementation's tables, initial views and "
       "step results on the re-labelled world (several consecutive resets, shipped and generated scenarios); monitors check that "
-      "the published maps compose and that goal sets, start positions and goal description follow; the generator's random draws are "
+      "the published maps compose and that goal sets, start positions and goal description follow (also for a role that was "
+      "VACANT while the world was re-labelled: its only agents leave, another role asks for the reset alone, an agent of the vacant role "
+      "joins afterwards - twice in a row); the generator's random draws are "
       "scripted at the boundaries of the RFC 1918 blocks (a base at the top of a block must be rejected by the retry) and the "
       "accepted re-labelling is checked for private-stays-private, distances, one-to-one, addresses inside their networks. Equivariance (Proofs/Equivariance.v): C13_equivariant_step / "
       "C13_equivariant_play - every one of the six actions, and by induction every action sequence, commutes with a re-labelling "
@@ -310,7 +329,8 @@ claim("C20",
       "property no executable model exhibits; it is decided by cross-process runs: identical multi-episode probe sessions (three attackers with random start hosts and a "
       "defender, collective resets, refused requests of every kind; also with the global defender on, so that its detection "
       "draws are part of the transcripts; every worker plays its session twice in one process, with two coordinators started one "
-      "after the other on the same configuration file, the second one reached from other peer addresses in reversed order) "
+      "after the other on the same configuration file, the second one reached from other peer addresses in reversed order, and both "
+      "after an attacker-only game on a configuration without a Defender section was hosted in the same process; every join the configuration allows must be confirmed) "
       "(static and dynamic addresses, all playable shipped scenarios, several seeds) in separate interpreter processes with "
       "different PYTHONHASHSEED values must give identical decoded transcripts, address maps and hashes; hashes must differ between "
       "scenarios. Labelled partial.",
